@@ -34,12 +34,12 @@ def main():
             "source": "independent sub-agent given only the property text and a scratch worktree"}
     env = dict(os.environ, PYTHONPATH=str(wt), MPLBACKEND="Agg")
     sh("git checkout -- .", cwd=wt)
-    rc0, out0 = sh(f"/venv/bin/python {src}/equiv.py", cwd="/tmp", env=env, timeout=1800)
+    rc0, out0 = sh(f"/venv/bin/python {src}/equiv.py 2>/dev/null", cwd="/tmp", env=env, timeout=1800)
     rca, outa = sh(f"git apply {src}/patch.diff", cwd=wt)
     if rca != 0:
         print("patch does not apply:", outa)
         sys.exit(1)
-    rc1, out1 = sh(f"/venv/bin/python {src}/equiv.py", cwd="/tmp", env=env, timeout=1800)
+    rc1, out1 = sh(f"/venv/bin/python {src}/equiv.py 2>/dev/null", cwd="/tmp", env=env, timeout=1800)
     meta["equiv_identical"] = bool(rc0 == 0 and rc1 == 0 and out0 == out1)
     meta["equiv_rc"] = [rc0, rc1]
     dst.mkdir(parents=True, exist_ok=True)
